@@ -58,6 +58,8 @@ VARIANTS = {
 HARNESSES = {
     'handoff': dict(src='harness/handoff.cpp', kind='mc'),
     'atomic_diff': dict(src='harness/atomic_diff.cpp', kind='seq'),
+    'shared': dict(src='harness/shared.cpp', kind='mc'),
+    'when_all': dict(src='harness/when_all.cpp', kind='mc'),
 }
 
 
@@ -218,6 +220,31 @@ CHECKS = {
             'sequentially consistent executions only',
         ],
         technique='stateless model checking: exhaustive DFS over all schedules of the real code under a controlled fiber scheduler',
+    ),
+    'C06': dict(
+        title='SharedFuture: every observer sees the one value once, never before it exists',
+        level_text='every schedule within (P<=2 quick / P<=3 thorough, one spurious weak-CAS failure) of one fulfilling '
+                   'fiber and two observer fibers (thorough: also three at P<=2), each performing one of 16 observer '
+                   'operations on its own copy, x {value, exception, dropped promise} x {bystander copy kept, dropped}',
+        budget=dict(quick=240, thorough=2400),
+        runs=[mc('shared', 'mc-asan', quick=dict(P=2, S=1), thorough=dict(P=3, S=1)),
+              mc('shared', 'mc-hb', quick=dict(P=2, S=1, cells='set=value'), thorough=dict(P=3, S=1))],
+        assumptions=['FIBER instantiation; sequentially consistent executions; preemption bound as stated',
+                     'observers perform one operation each (thorough: pairs of operations are covered by the 3-observer cells only)'],
+        technique='stateless model checking: exhaustive preemption-bounded schedule enumeration of the implementation',
+    ),
+    'C09': dict(
+        title='WhenAll / Join complete once, at the right moment, with inputs in input order',
+        level_text='every schedule within the preemption bound (P<=2 quick, P<=3 thorough; n=3: P<=2) of n=2 (thorough also 3) '
+                   'producer fibers completing their inputs while the root fiber is still inside WhenAll/Join registering '
+                   'them, x {FirstFail, None} x 10 input forms (static/dynamic, unique/shared/mixed, same-type/void/tuple, Join) '
+                   'x all 9 value/error/exception patterns; oracles: once, index order, admissible first failure, timing window, ledger',
+        budget=dict(quick=240, thorough=2400),
+        runs=[mc('when_all', 'mc-asan', quick=dict(P=2), thorough=dict(P=3)),
+              mc('when_all', 'mc-hb', quick=dict(P=2, cells='pat=(VV|EV|XE|VVV|EVV)'), thorough=dict(P=3))],
+        assumptions=['FIBER instantiation; sequentially consistent executions; preemption bound as stated',
+                     'timing oracle uses the explorer event counter as clock'],
+        technique='stateless model checking: exhaustive preemption-bounded schedule enumeration of the implementation',
     ),
     'C19': dict(
         title='yaclib_std::atomic computes what std::atomic computes',
